@@ -126,16 +126,18 @@ def run(ctx):
     drv, model = ec.prepare(ctx, ec.C13_PROOF_MODULES, ec.C13_OBLIGATIONS)
     n = 500 if ctx.tier == "quick" else 12000
     cases = list(CORPUS) + [ec.gen_history(ctx.rng, ctx.tier) for _ in range(n)]
+    # histories aimed at the optimisation pass of cse (negated powers/products, shared factors): cse on, then off, same points
+    cases += [ec.gen_cse_history(ctx.rng) for _ in range(n // 2)]
     explore(ctx, drv, model, cases)
     if ctx.broken and not ctx.violations:
-        extra = [ec.gen_history(ctx.rng, "thorough") for _ in range(1500)]
+        extra = [ec.gen_history(ctx.rng, "thorough") for _ in range(1500)] + [ec.gen_cse_history(ctx.rng) for _ in range(500)]
         explore(ctx, drv, model, extra, search=True)
     ctx.cov.pop("_seen", None)
     ctx.cov["rule"] = ("histories on one LambdaRealDoubleVisitor: 1-4 init calls (1-4 input symbols, 1-4 outputs over arithmetic, 35 elementary/special "
                        "function classes, relationals, And/Or/Xor/Not, Piecewise with and without a final True, Contains(Interval), Max/Min, sign, floor, "
                        "ceiling, truncate; cse on/off; shared subexpressions; ~22% of the inits throw: unknown symbol, unsupported class; later inits "
                        "mention x0/x1/x2) each followed by 0-3 calls on input vectors from a 30-value boundary palette (+-0, +-1, 1+-ulp, inf, nan, "
-                       "2^53+2, denormal limit) or random; a history is non-trivial when it has a successful init and a call; distinct = distinct history strings")
+                       "2^53+2, denormal limit) or random; plus n/2 cse-stress histories (2-4 algebraic outputs sharing factors/addends, negated and negative powers, cse on then off on the same generic points); a history is non-trivial when it has a successful init and a call; distinct = distinct history strings")
     ctx.assumptions += [
         "the result of SymEngine::cse (replacements, reduced expressions) is an input of the model: the driver calls cse itself with the same outputs "
         "just before init (cse is deterministic); faithfulness of cse is property C37",
